@@ -89,6 +89,12 @@ def gen(rng, tier):
                     continue
                 lab = "accept:trusted" if trusted(anchors, "ca", fc, cc, exact) else "accept:untrusted"
                 yield pf_line(F, anchors, fc, cc, n, 1 if anchors == "ca" else 0, good, n, lab)
+    # constraints set on the file and taken back (NULL): the context's decide again
+    for anchors in ("ca", "other"):
+        for cc in (GOOD, wrong[3], "-", "e"):
+            lab = "accept:trusted" if trusted(anchors, "ca", "-", cc, exact) else "accept:untrusted"
+            yield pf_line(F, anchors, "x:" + GOOD, cc, n, 1 if anchors == "ca" else 0, good, n, lab)
+            yield pf_line(F, anchors, "x:" + wrong[3], cc, n, 1 if anchors == "ca" else 0, good, n, lab)
     # the same file signed under the other root
     sig2 = W.sign(body, "signer_other")
     F2 = body + sigrec(sig2)
@@ -246,6 +252,8 @@ CONFIG.required_theorems = ["parse_iff", "signed_range_exact", "sections_in_orde
                              "by_time_spec", "find_spec", "nearest_spec", "latest_spec", "cert_by_id_spec"]
 CONFIG.translators = [tables.gen_templates, tables.gen_crc]
 CONFIG.engines = [Engine("c18", ["exec_c18.c"], "drv_c18", gen, trivial=trivial, env={"VERIF_PKI_DIR": os.path.join(core.VERIF, ".build", "pki"),
+                                                                                   # a trust store made without defaults must not look here
+                                                                                   "SSL_CERT_FILE": os.path.join(core.VERIF, ".build", "pki", "ca.pem"),
                                                                                    "LSAN_OPTIONS": "suppressions=%s:print_suppressions=0" % os.path.join(core.VERIF, "harness", "lsan.supp"),
                                                                                    # the suppression matches on frames inside libcrypto, which the fast unwinder cannot walk
                                                                                    "ASAN_OPTIONS": "detect_leaks=1:abort_on_error=0:exitcode=99:allocator_may_return_null=1:fast_unwind_on_malloc=0"})]
